@@ -113,7 +113,6 @@ func selftest(args []string) int {
 	return 0
 }
 
-
 // selftestDeep: per (scenario, focus property, tier) 300 seeds, each executed in three
 // processes (GOMAXPROCS 1, 4, 16): catches nondeterminism that only some generator paths reach.
 func selftestDeep(scen map[string]part, focusOf map[string][]string, only string) int {
